@@ -1,5 +1,6 @@
 import Lox.LR.CheckSound
 import Lox.LR.RuntimeExample
+import Lox.LR.RuntimeDefs
 /-! Grammar and item-set certificate for the tables of `Lox/LR/RuntimeExample.lean`
 (`@start S = stmt*; stmt = A B? SEMI | @error SEMI`; ERROR is the ordinary terminal 1 of `G`).
 The certificate holds the LR(0) cores of the 12 states (computed from the grammar along the
@@ -24,5 +25,9 @@ def cert : Array (List Item) :=
    [⟨2,3,0⟩]]
 
 theorem checkSafe_ok : checkSafe G 6 6 T cert = .ok () := checkSafe_ok_iff.mpr (by decide)
+
+theorem termB_ok : termB G T cert = true := by decide +kernel
+
+theorem recoveryOK : recoveryOKB T cert.size = true := by decide +kernel
 
 end Lox.LR.Rt.Example
